@@ -330,7 +330,7 @@ def profile_for(ctx, base=None):
 
 
 def shard(ctx, n, max_ops):
-    prof = profile_for(ctx, {"max_ops": max_ops, "reuse_ids": True})
+    prof = profile_for(ctx, {"max_ops": max_ops, "reuse_ids": True, "call_in_bounds": True})
     strat = st.fixed_dictionaries({"method": methods(prof), "plan": plans()})
 
     def body(case):
